@@ -64,6 +64,9 @@ add("C10", "model_checking", "E3+E1", E3TECH, "All 276 pairwise products of the 
 add("C19", "model_checking", "E2", "explicit-state exploration of read-only operation histories on live chart objects (all sequences to depth 2/3, un-merged), fingerprint + twin equality after every operation", "Every sequence of <= 2 (thorough 3) operations out of a 50-operation alphabet on 5 charts is executed on a fresh parse; after every operation the full public observation and equality with an untouched twin (both directions) must equal the initial state.", TRUST, "DESIGN.md 4 C19")
 add("C20", "model_checking", "E2", "explicit-state BFS over import histories, one fresh interpreter per transition, states merged by module-table fingerprint; merging validated by un-merged pairs/triples/permutations", "BFS to a fixed point over 'import M' for the 13 modules in fresh interpreters (25 states / 325 transitions on the repaired tree); every transition must succeed and all states that load every module must coincide; all 156 ordered pairs (thorough: 1716 triples + 24 full permutations) executed un-merged and compared with the merged graph.", "Trusted: CPython import system semantics captured by sys.modules + namespaces; fresh interpreter = /venv/bin/python -I.", "DESIGN.md 4 C20")
 
+add("C17", "model_checking", "E2+E4", "exhaustive enumeration of parse histories in forked pristine process images + iterative context bounding: ALL thread schedules of two concurrent parses up to a preemption bound under a cooperative trace-function scheduler", "Every sequence of <= 2 (thorough 3) parses over a 9-text corpus built to collide on the memo tables, each in a process forked from a pristine parent, compared with fresh-interpreter baselines; two real threads parsing concurrently under a scheduler that owns every context switch: every switch point at line granularity (thorough: opcode granularity, and 2 preemptions at call granularity) x cold/warm memo tables x both start orders; determinism self-check by replaying every 50th schedule.", "Trusted: CPython threading/settrace semantics; scheduling points in package frames only (stdlib treated as atomic); GIL makes single bytecodes atomic.", "DESIGN.md 4 C17")
+add("C18", "model_checking", "E2+E1", "explicit-state BFS over the edit graph of chart texts (state = text) + exhaustive enumeration of fragment sequences, every text parsed and rendered by the real code", "BFS from 3 seed charts through every line edit to depth 2, every character edit (9-character alphabet) and character edit followed by line edit; every sequence of <= 4 (thorough 5) of 28 structural fragments; every body of <= 3 lines per section over 10-14 fragments in a complete skeleton, body pairs and extreme skeletons (about 9*10^5 texts quick).", TRUST, "DESIGN.md 4 C18")
+
 PENDING = {}
 
 
